@@ -26,7 +26,7 @@ func init() {
 		Gen:       c12Gen,
 		Run:       c12Run,
 		Rule:      "GeneratePrivateKey on seeds of every length 0..300 (all-zero, all-0xff, random contents) for BLS, P-256, secp256k1, each called twice; DecodePrivateKey on edge scalars (1, 2, n-1, n, 0, leading zero bytes) with the public key compared to scalar*G; a case is non-trivial if a key was produced or the input was rejected; distinct by (op, alg, input)",
-		Shard:     45,
+		Shard:     25,
 	})
 }
 
@@ -61,8 +61,10 @@ func c12Gen(tier string, r *rand.Rand) []Case {
 	npk := 0
 	for l := 0; l <= 300; l++ {
 		for ai, a := range algs {
-			// quick: every length for one algorithm in turn, all three at the boundary lengths
-			if tier != "thorough" && !boundary[l] && l%3 != ai {
+			// quick: a stride of 3 over the lengths with the algorithm rotating, all three
+			// algorithms at the boundary lengths; thorough: everything
+			pick := l%3 == 0 && (l/3)%3 == ai
+			if tier != "thorough" && !boundary[l] && !pick {
 				continue
 			}
 			wantPK := a != "bls" && l >= 32 && l <= 256 && (boundary[l] || (tier == "thorough" && l%4 == 0))
@@ -73,7 +75,7 @@ func c12Gen(tier string, r *rand.Rand) []Case {
 				npk++
 			}
 			cs = append(cs, mkcase("keygen-random", c12In{"keygen", a, hx(rbytes(r, l)), wantPK}))
-			if tier == "thorough" || boundary[l] || l%12 == ai {
+			if tier == "thorough" || boundary[l] || (pick && l%4 == 0) {
 				cs = append(cs, mkcase("keygen-zero", c12In{"keygen", a, hx(fill(l, 0)), false}))
 				cs = append(cs, mkcase("keygen-ff", c12In{"keygen", a, hx(fill(l, 0xff)), false}))
 			}
